@@ -814,7 +814,16 @@ Definition own_item (ev : eevent) (t : titem) : bool :=
 (* the answer of a request carries the caller's context error (Canceled / DeadlineExceeded) *)
 Definition ctx_code (c : N) : bool := (c =? 6) || (c =? 7).
 
-Definition mon_step0 (s0 : estate) (listed0 : bool) (q : req) (ob : robs) (evs : list oev) : N :=
+(* an item of the trace that the oracle makes fail: a critical hook of a failing moment ran, or a
+   task command that fails was sent *)
+Definition failing_item (o : oracle) (t : titem) : bool :=
+  match t with
+  | Hook m => mem_moment m (o_hooks o)
+  | Body e => mem_event e (o_bodies o)
+  | SetSt _ => false
+  end.
+
+Definition mon_step0 (s0 : estate) (listed0 : bool) (o : oracle) (q : req) (ob : robs) (evs : list oev) : N :=
   let es := trace_edges s0 (ro_trace ob) ++
             [(fold_left (fun s t => match t with SetSt d => d | _ => s end) (ro_trace ob) s0, ro_final ob)] in
   let g := edges_code false listed0 es in
@@ -840,6 +849,9 @@ Definition mon_step0 (s0 : estate) (listed0 : bool) (q : req) (ob : robs) (evs :
         else if negb (estate_eqb (ro_final ob) sERROR) then 5
         else if negb reply_ok then 8 else 0
       | Some d =>
+        (* every way the transition can fail (a critical hook in either weight pass of any moment,
+           a task command) must end in ERROR, whatever the request is answered *)
+        if existsb (failing_item o) (ro_trace ob) && negb (estate_eqb (ro_final ob) sERROR) then 5 else
         if estate_eqb (ro_final ob) d && ((ro_code ob =? 0) || ctx_code (ro_code ob)) then
           (if reply_ok || ctx_code (ro_code ob) then 0 else 8)
         else if estate_eqb (ro_final ob) sERROR then (if reply_ok then 0 else 8)
@@ -855,15 +867,15 @@ Definition mon_step0 (s0 : estate) (listed0 : bool) (q : req) (ob : robs) (evs :
 
 (* 16: what the request did to the environment is right, but its answer depends on the caller's
    context (no reply; Canceled / DeadlineExceeded) *)
-Definition mon_step (s0 : estate) (listed0 : bool) (q : req) (ob : robs) (evs : list oev) : N :=
-  let c := mon_step0 s0 listed0 q ob evs in
+Definition mon_step (s0 : estate) (listed0 : bool) (o : oracle) (q : req) (ob : robs) (evs : list oev) : N :=
+  let c := mon_step0 s0 listed0 o q ob evs in
   if (c =? 0) || (c =? 8) then (if ctx_code (ro_code ob) then 16 else c) else c.
 
 Fixpoint mon_seq (s : estate) (listed : bool) (steps : list (req * oracle * robs * list oev)) : N :=
   match steps with
   | [] => 0
-  | (q, _, ob, evs) :: r =>
-    let c := mon_step s listed q ob evs in
+  | (q, o, ob, evs) :: r =>
+    let c := mon_step s listed o q ob evs in
     if negb (c =? 0) then c else mon_seq (ro_final ob) (ro_listed ob) r
   end.
 
@@ -949,6 +961,24 @@ Fixpoint close_kinds (l : list litem) : list N :=
   | LE 4 _ _ :: r => 4 :: close_kinds r
   | _ :: r => close_kinds r
   end.
+(* a failing hook ran or a failing task command was sent inside a section owned by a
+   ControlEnvironment thread (the hint lists the owner of every opening event) *)
+Fixpoint control_ran_failing (ths : list (req * N * option estate)) (o : oracle) (macro : list N)
+         (ctl : bool) (l : list litem) : bool :=
+  match l with
+  | [] => false
+  | LE 1 _ _ :: r =>
+    match macro with
+    | i :: m => control_ran_failing ths o m
+                  match nth_error ths (N.to_nat i) with Some (QControl _, _, _) => true | _ => false end r
+    | [] => control_ran_failing ths o [] false r
+    end
+  | LE 2 _ _ :: r => control_ran_failing ths o macro false r
+  | LE 4 _ _ :: r => control_ran_failing ths o macro false r
+  | LE _ _ _ :: r => control_ran_failing ths o macro ctl r
+  | LI t :: r => (ctl && failing_item o t) || control_ran_failing ths o macro ctl r
+  end.
+
 (* some ControlEnvironment's TryTransition returned an error (its own transition or the fallback) *)
 Fixpoint control_failed (ths : list (req * N * option estate)) (macro : list N) (cs : list N) : bool :=
   match macro, cs with
@@ -976,6 +1006,10 @@ Definition mon_conc (st0 : estate) (o : oracle) (ths : list (req * N * option es
   (* a failed or illegal transition requested through the API leaves the environment in ERROR,
      whatever the caller does meanwhile and whatever it is answered: afterwards only a teardown moves it *)
   if Nat.eqb (length macro) (length (close_kinds log)) && control_failed ths macro (close_kinds log) && live final
+  then 5 else
+  (* ... also when the failure was swallowed: a hook that fails ran (in either weight pass of its
+     moment) or a failing task command was sent in a ControlEnvironment's section *)
+  if Nat.eqb (length macro) (length (open_states log)) && control_ran_failing ths o macro false log && live final
   then 5 else
   (* a control request answered Aborted has put the environment in ERROR: afterwards only a
      teardown may move it (class 5 when no unlocked forced state can be involved) *)
